@@ -163,36 +163,31 @@ structure SendFrame (r r' : Realm) : Prop where
   closedPeers : r'.closedPeers = r.closedPeers
   retries : r'.retries = r.retries
   deferred : r'.deferred = r.deferred
+  inbox : r'.inbox = r.inbox
   ghosts : r'.ghosts = r.ghosts
   now : r'.now = r.now
   pubCount : r'.pubCount = r.pubCount
   rnd : r'.rnd = r.rnd
 
 theorem SendFrame.refl (r : Realm) : SendFrame r r :=
-  ⟨rfl, rfl, rfl, rfl, rfl, rfl, rfl, rfl, rfl, rfl, rfl, rfl, rfl, rfl, rfl⟩
+  ⟨rfl, rfl, rfl, rfl, rfl, rfl, rfl, rfl, rfl, rfl, rfl, rfl, rfl, rfl, rfl, rfl⟩
 
 theorem SendFrame.trans {a b c : Realm} (h1 : SendFrame a b) (h2 : SendFrame b c) : SendFrame a c :=
   ⟨h2.cfg.trans h1.cfg, h2.broker.trans h1.broker, h2.ds.trans h1.ds, h2.clients.trans h1.clients,
     h2.ending.trans h1.ending, h2.testaments.trans h1.testaments, h2.metaProcs.trans h1.metaProcs,
     h2.metaS.trans h1.metaS, h2.closedPeers.trans h1.closedPeers, h2.retries.trans h1.retries,
-    h2.deferred.trans h1.deferred, h2.ghosts.trans h1.ghosts, h2.now.trans h1.now, h2.pubCount.trans h1.pubCount,
+    h2.deferred.trans h1.deferred, h2.inbox.trans h1.inbox, h2.ghosts.trans h1.ghosts, h2.now.trans h1.now, h2.pubCount.trans h1.pubCount,
     h2.rnd.trans h1.rnd⟩
 
 theorem setPanic_frame (r : Realm) (p : Option String) : SendFrame r (r.setPanic p) := by
-  unfold setPanic; split <;> exact ⟨rfl, rfl, rfl, rfl, rfl, rfl, rfl, rfl, rfl, rfl, rfl, rfl, rfl, rfl, rfl⟩
-
-theorem setPanic_queues (r : Realm) (p : Option String) : (r.setPanic p).queues = r.queues := by
-  unfold setPanic; split <;> rfl
-
-theorem setPanic_tasks (r : Realm) (p : Option String) : (r.setPanic p).tasks = r.tasks := by
-  unfold setPanic; split <;> rfl
+  unfold setPanic; split <;> exact ⟨rfl, rfl, rfl, rfl, rfl, rfl, rfl, rfl, rfl, rfl, rfl, rfl, rfl, rfl, rfl, rfl⟩
 
 /-- a message for the meta session is never queued -/
 theorem trySend_meta (r : Realm) (s : Send) (h : s.to = metaKey) :
     (r.trySend s).queues = r.queues ∧ SendFrame r (r.trySend s) ∧ (r.trySend s).panic = r.panic := by
   unfold trySend
   rw [if_pos h]
-  split <;> exact ⟨rfl, ⟨rfl, rfl, rfl, rfl, rfl, rfl, rfl, rfl, rfl, rfl, rfl, rfl, rfl, rfl, rfl⟩, rfl⟩
+  split <;> exact ⟨rfl, ⟨rfl, rfl, rfl, rfl, rfl, rfl, rfl, rfl, rfl, rfl, rfl, rfl, rfl, rfl, rfl, rfl⟩, rfl⟩
 
 /-- a send to a key that is neither the meta session nor an attached client is the model's panic
     "send to a closed peer" (never reached from a state satisfying `RealmInv`) -/
@@ -230,7 +225,7 @@ theorem trySend_frame (r : Realm) (s : Send) : SendFrame r (r.trySend s) := by
       rw [trySend_client r s hm hc]
       split
       · exact SendFrame.refl r
-      · exact ⟨rfl, rfl, rfl, rfl, rfl, rfl, rfl, rfl, rfl, rfl, rfl, rfl, rfl, rfl, rfl⟩
+      · exact ⟨rfl, rfl, rfl, rfl, rfl, rfl, rfl, rfl, rfl, rfl, rfl, rfl, rfl, rfl, rfl, rfl⟩
 
 /-- the queue of session `k` after one send -/
 theorem queueOf_trySend (r : Realm) (s : Send) (k : SessKey) :
@@ -619,13 +614,24 @@ theorem qinv_metaEffect {r r' : Realm} (h : QueueInv r) (e : MetaEffect r r') : 
   cases e with
   | same => exact h
   | kill sel g ka => exact h
-  | testaments t => exact h
+  | testaments t _ => exact h
   | modify k d =>
     exact qinv_map_clients (fun c => if c.key == k then { c with details := d } else c)
       (fun c => by split <;> rfl) (fun c => by split <;> rfl) rfl rfl rfl (fun _ hk => hk) h
 
+theorem qinv_recvMsg {r : Realm} (h : QueueInv r) (k : SessKey) (m : Msg) : QueueInv (r.recvMsg k m) := by
+  rw [recvMsg_eq]
+  split
+  · exact h
+  · split
+    · exact h
+    · split
+      · split <;> exact h
+      · exact qinv_handleMsg h _ _
+
 theorem qinv_runTask {r : Realm} (h : QueueInv r) (t : Task) : QueueInv (r.runTask t) := by
   cases t with
+  | inMsg k m => exact qinv_recvMsg h k m
   | metaPub p => exact qinv_handlePublish h ..
   | metaInvoke req reg details args kw =>
     rw [runTask_metaInvoke]
@@ -693,13 +699,11 @@ theorem qinv_stepOp {r : Realm} (h : QueueInv r) (op : Op)
       simp at hb; subst hb
       obtain ⟨c, hc, rfl⟩ := List.mem_map.mp ha
       exact hfc c hc
-  | msg k m =>
-    rw [stepOp_msg]
-    split
-    · exact h
-    · split
-      · exact h
-      · exact qinv_handleMsg h _ _
+  | msg k m => exact qinv_recvMsg h k m
+  | buffer k =>
+    rw [stepOp_buffer]
+    exact qinv_map_clients (fun c => if c.key == k then { c with buffered := true } else c)
+      (fun c => by split <;> rfl) (fun c => by split <;> rfl) rfl rfl rfl (fun _ hk => hk) h
   | drop k =>
     rw [stepOp_drop]
     split <;> exact h
